@@ -51,7 +51,7 @@ PROPS["C02"] = {
 PROPS["C17"] = {
     "id": "C17",
     "lean_modules": ["JT.Props.C17"],
-    "functional_ops": ["rtp", "rtpv", "rtpall", "rtpallv"],
+    "functional_ops": ["rtp", "rtpv", "rtpall", "rtpallv", "rtpseq"],
     "rule": ("packets of every data type 0..15 with random flag/PT/SIM/channel/sequence/timestamp/intervals, payload 0..950 and up to ~4000 bytes (incl. payloads starting with the marker), "
              "concatenated 1..4 at a time: `rtpv` first packet + remainder, `rtpallv` iteration to the end, every cut length of short packets and boundary cuts (15..30, len-1) of all, "
              "streams cut inside a later packet, damaged markers, arbitrary strings (half of them starting with the marker). "
@@ -128,10 +128,10 @@ PROPS["C14"] = {
     "id": "C14",
     "lean_modules": ["JT.Props.C14"],
     "extractors": ["concshape"],
-    "functional_ops": [],
+    "functional_ops": ["rereqsock"],
     "rule": ("transfers of 2..12 (thorough: up to 255) packets with a random non-empty set of missing numbers, optional second concurrent transfer, then 1..5 rounds of idle time from {0,1,2,4,5,6,9,11,30,54,59,60,61 s} followed by inbound data "
              "(heartbeat, partial resupply, full resupply), late packets after completion/expiry; EXHAUSTIVELY every non-empty missing subset for N <= 6 (thorough <= 10) with idle 4 s / +2 s / +1 s. "
-             "Stored timestamps are moved back by the hook instead of sleeping (whole seconds; a session that takes > 0.4 s of real time is re-run). non-trivial = session with a re-request or a completion."),
+             "plus one live-socket scenario in real time (8 transfers of different IDs each missing a packet, 5.2 s of silence, then a heartbeat: 8 re-requests must arrive; thorough: 2/5/8/12). Stored timestamps are moved back by the hook instead of sleeping (whole seconds; a session that takes > 0.4 s of real time is re-run). non-trivial = session with a re-request or a completion."),
     "technique": "Lean 4 proof about a model of deleteTimeoutPackage/supplementarySubPackage with time as a parameter (uses the C01 round-trip theorem) + differential correspondence with shifted timestamps + re-request oracle",
     "level_text": ("Machine-checked Lean 4 theorems: the re-request body is the serial of packet 1, the count and exactly the missing package numbers (membership iff 1..N and not arrived; strictly ascending) for up to 255 missing numbers, "
                    "carried in a 0x8003 frame addressed with the transfer's phone and version (via the C01 round trip); a re-request is produced exactly for transfers younger than 60 s that were idle for 5 s; a transfer re-requested at t is not re-requested "
